@@ -56,6 +56,38 @@ CHECKS = {
         "sequence up to the bound is replayed on a real PSET comparing locktime(), unique_id() and extract_tx() per step, and random "
         "long histories of the real object are validated step by step against the specification.",
    note="field contents sampled; the unique id is compared for (in)equality with the initial one, its value is tied to the txid by C02."),
+ "C01": dict(
+   cat="model_checking", design="§4 C01",
+   technique="TLA+ specification of the wire grammar (token-level encoders and an independent recursive-descent decoder with every "
+             "rejection rule), TLC-checked WireSession state machine over mutation neighbourhoods; emitted shapes and token strings "
+             "replayed into the real codec (bytes both ways); byte-level mutation traces validated against the session contract",
+   text="TLC explores every token string reachable from the encoding of every enumerated shape by local mutations and checks that the "
+        "specification's decoder accepts exactly canonical strings (accepted => re-encodes to itself, canonical values round-trip, "
+        "partial decoding consumes a self-re-encoding prefix); every shape and every mutated string is then concretised by an "
+        "independent token serializer and run through the real serialize / deserialize / deserialize_partial, comparing bytes, verdict, "
+        "consumed length, reported length and decoded value; recorded byte-level mutations of repository vectors are checked against "
+        "the same contract.",
+   note="point/scalar/proof validity is libsecp's and enters as a token attribute; byte-level (sub-token) mutations are covered by the "
+        "recorded traces, not by the token model; shapes are the enumerated families, not all transactions."),
+ "C02": dict(
+   cat="model_checking", design="§4 C02",
+   technique="TLA+ definitions of the id preimages (TxidPre, WtxidPre, BlockHashPre, ClearWitness) over the Wire token model, "
+             "TLC-checked relations; preimages hashed by an independent SHA-256 and compared with txid/wtxid/block_hash; every "
+             "field position classified by the specification is modified on real values",
+   text="The specification states which tokens enter each id; TLC checks wtxid-preimage = txid-preimage iff no witness and that "
+        "clearing the header witness never changes the hash preimage; the harness hashes the concretised preimages with its own "
+        "SHA-256 and compares with the library for every shape, then applies every single-field modification the specification lists "
+        "(witness or not) to the real value and checks that the id moves exactly for non-witness fields.",
+   note="SHA-256 collision freeness; enumerated shape families; one modification per field position."),
+ "C12": dict(
+   cat="model_checking", design="§4 C12",
+   technique="TLA+ size functions as sums of token widths of the specified encodings plus a transcription of the hand-written "
+             "scaled_size arithmetic, TLC-checked to agree on every shape; numbers replayed against size/weight/vsize/discount "
+             "functions and against measured serializations",
+   text="Sizes are defined in the specification from the encoder itself (sum of token widths; weight = 3 x stripped + full; ELIP-200 "
+        "discount) and TLC checks the per-field arithmetic against them for all witness subsets and varint boundaries; the harness "
+        "compares every reported figure with the specification's number and with the real full / witness-stripped byte lengths.",
+   note="enumerated shape families; lengths at varint boundaries 252/253/65535/65536 included."),
 }
 NA_PENDING = "check not built yet in this round (planned, see DESIGN.md §4)"
 
